@@ -45,7 +45,9 @@ PROPS = {
                      "composition law holds in a common frame; Dwann with a common non-identity frame, site-dependent frames and "
                      "composite orbitals (explicit basis_list on the specification's structures; frames built by Projection from "
                      "xaxis= / rotate_basis= / do_not_split_projections on the hexagonal cell): unitarity, centre map, block = phase x "
-                     "D_spec of the rotation in the local frames.",
+                     "D_spec of the rotation in the local frames. One long-lived rotator answering 420 (thorough 600) distinct rotations with "
+                     "re-queries must agree with fresh instances (1e-12) and compose across its history (numeric only, key "
+                     "OrbitalRotator:long_history; not modelled in TLA+).",
                 note="exact in TLA+: group axioms, tables, s/p/d matrices, hybrids that are sub-blocks, domain predicate, site maps/shifts. "
                      "numeric (inputs and index triples chosen by the spec): f shell and sqrt(2)-hybrids, random rotations, hexagonal "
                      "cell (reported as numeric_only). A hybrid whose span is not invariant under the rotation is outside the "
@@ -797,6 +799,70 @@ def cache_tolerance(rep, shells, rng):
     rep.part("cache_tolerance_numeric_only", cases=ncase, max_deviation=worst)
 
 
+def long_history(rep, groups, shells, rng, ndistinct=420):
+    """numeric only: ONE long-lived rotator (as SymmetrizerSAWF keeps one) is asked for several hundred distinct rotations (elements of one
+    group in local frames of the other, b2 R b1^T, and random ones), interleaved with re-queries of earlier ones; every answer must equal
+    the answer of a fresh instance (1e-12), and D(A) D(B) = D(AB) must hold on the long-lived instance for A from the beginning and B from
+    the end of the history.  Key OrbitalRotator:long_history"""
+    from scipy.spatial.transform import Rotation
+    nprs = np.random.RandomState(rng.randrange(2**31))
+    pool = [e for g in groups for e in g["elems"]]
+    rots, seen = [], set()
+    while len(rots) < ndistinct:
+        if len(rots) % 3 == 2:
+            R = Rotation.random(random_state=nprs).as_matrix() * nprs.choice([1, -1])
+        else:
+            b1, R0, b2 = (pool[rng.randrange(len(pool))] for _ in range(3))
+            R = b2 @ R0 @ b1.T
+        key = tuple(np.round(R, 3).ravel() + 0.0)
+        if key not in seen:
+            seen.add(key)
+            rots.append(R)
+    long_lived = new_rotator()
+    use = [sh for sh in ("p", "d") if sh in shells]
+    worst, nq, nre, nhom = 0.0, 0, 0, 0
+
+    def ask(n, sh):
+        nonlocal worst, nq
+        M = call_rot(rep, long_lived, sh, rots[n])
+        F = call_rot(rep, new_rotator(), sh, rots[n])
+        if M is None or F is None:
+            return None
+        nq += 1
+        dv = float(np.abs(M - F).max()) if M.shape == F.shape else float("inf")
+        worst = max(worst, dv)
+        if dv > 1e-12:
+            rep.violation("OrbitalRotator:long_history", dict(shell=sh, query_number=nq, position_in_history=n, rot_cart=rots[n].tolist(), deviation=dv,
+                                                              what="a rotator that has answered many distinct rotations returns another matrix than a fresh instance "
+                                                                   "for the same rotation (stale cache entry)"))
+        return M
+    for n in range(ndistinct):
+        for sh in use:
+            if sh == "p" or n % 4 == 0:
+                rep.case(("history", sh, n))
+                ask(n, sh)
+        if n % 5 == 4:          # re-query an earlier rotation
+            m = rng.randrange(n)
+            nre += 1
+            ask(m, "p")
+            if m % 4 == 0 and "d" in use:
+                ask(m, "d")
+    for _ in range(12):         # composition across the history, on the long-lived instance
+        a, b = rng.randrange(40), ndistinct - 1 - rng.randrange(40)
+        Ms = [call_rot(rep, long_lived, "p", X) for X in (rots[a], rots[b], rots[a] @ rots[b])]
+        if any(M is None for M in Ms):
+            continue
+        nhom += 1
+        dv = float(np.abs(Ms[0] @ Ms[1] - Ms[2]).max())
+        worst = max(worst, dv if dv > 1e-9 else 0.0)
+        if dv > TOL:
+            rep.violation("OrbitalRotator:long_history", dict(shell="p", A=rots[a].tolist(), B=rots[b].tolist(), deviation=dv,
+                                                              what="D(A) D(B) differs from D(AB) on a rotator with a long history"))
+    if nq < ndistinct and not rep.violations:
+        raise MachineryError("long-history sub-check made too few queries")
+    rep.part("long_history_numeric_only", distinct_rotations=ndistinct, queries=nq, requeries=nre, compositions=nhom, max_deviation=worst)
+
+
 def check(pid, tier):
     rep = Report(pid, tier, "exploration")
     try:
@@ -925,4 +991,5 @@ def _check(rep, tier):
                        nf=6 if thorough else 1, rng=rng, workers=workers, sgns=(1, -1) if thorough else (-1,))
     random_rotations(rep, shells, npairs=40 if thorough else 6, nf=12 if thorough else 2, rng=rng)
     cache_tolerance(rep, shells, rng)
+    long_history(rep, groups[:2], shells, rng, ndistinct=600 if thorough else 420)
     return rep.finish()
